@@ -30,11 +30,25 @@ func init() {
 	registerGroup("layout", func(w *World, out *[]Obligation) { w.rulesLayout(out) })
 }
 
-func ruleMatches(pat, rule string) bool {
-	if strings.HasSuffix(pat, "*") {
-		return strings.HasPrefix(rule, strings.TrimSuffix(pat, "*"))
+// ruleMatches: pattern "R07.store", "R07.*", optionally restricted to the
+// packages an obligation's instance belongs to: "R07.store@30|31".
+func ruleMatches(pat string, o Obligation) bool {
+	if i := strings.IndexByte(pat, '@'); i >= 0 {
+		ok := false
+		for _, k := range strings.Split(pat[i+1:], "|") {
+			if strings.HasPrefix(o.Instance, k+".") || strings.HasPrefix(o.Instance, k+"~") {
+				ok = true
+			}
+		}
+		if !ok {
+			return false
+		}
+		pat = pat[:i]
 	}
-	return pat == rule
+	if strings.HasSuffix(pat, "*") {
+		return strings.HasPrefix(o.Rule, strings.TrimSuffix(pat, "*"))
+	}
+	return pat == o.Rule
 }
 
 func main() {
@@ -103,7 +117,7 @@ func runProperty(id string, def propDef, repo, verif, tier string, seed int64, n
 		kept := 0
 		for _, o := range all {
 			for _, pat := range def.Rules {
-				if ruleMatches(pat, o.Rule) {
+				if ruleMatches(pat, o) {
 					run.add(o)
 					kept++
 					break
